@@ -18,6 +18,8 @@ func curveByName(n string) elliptic.Curve {
 		return tss.S256()
 	case "ed25519":
 		return tss.Edwards()
+	case "p256":
+		return elliptic.P256()
 	}
 	panic("unknown curve " + n)
 }
@@ -25,6 +27,9 @@ func curveByName(n string) elliptic.Curve {
 func curveName(ec elliptic.Curve) string {
 	if tss.SameCurve(ec, tss.S256()) {
 		return "secp256k1"
+	}
+	if ec == elliptic.P256() {
+		return "p256"
 	}
 	return "ed25519"
 }
